@@ -291,7 +291,7 @@ func call(car string, v reflect.Value, rules string) func() error {
 	case "struct-tag-after-other-tag", "struct-tag-after-call-local-functions", "struct-tag-field-70", "struct-rm-after-plain-call", "map-25-entries", "url-parameter-151-of-200",
 		string(carrier.StructWrappers), string(carrier.VarWrappers), string(carrier.MapWrappers), string(carrier.UrlWrappers),
 		string(carrier.StructFirstLocalFn), string(carrier.StructFirstOverride), string(carrier.StructFirstOtherTag), string(carrier.StructFirstNested),
-		string(carrier.MapRMEdited), string(carrier.UrlRMEdited), string(carrier.StructRMEdited):
+		string(carrier.MapRMEdited), string(carrier.UrlRMEdited), string(carrier.StructRMEdited), string(carrier.MapLocalFn), string(carrier.UrlLocalFn), string(carrier.VarLocalFn), string(carrier.StructAfterAbandoned):
 		return func() error {
 			s, isNil := carrier.Validate(carrier.Kind(car), v, rules)
 			if isNil {
@@ -441,17 +441,17 @@ func run(c *runner.Ctx) {
 				switch tv.v.Kind() { // Map documents scalar values only (int, float, bool, string)
 				case reflect.Slice, reflect.Array, reflect.Map, reflect.Struct, reflect.Ptr:
 				default:
-					cars = append(cars, "map", "map-iface", "map-25-entries", string(carrier.MapWrappers), string(carrier.MapRMEdited))
+					cars = append(cars, "map", "map-iface", "map-25-entries", string(carrier.MapWrappers), string(carrier.MapRMEdited), string(carrier.MapLocalFn))
 				}
 				if carrier.TagOK(rf.rules) {
 					cars = append(cars, "struct-tag", "struct-tag-after-override", "struct-tag-after-rejected-call", "struct-tag-after-other-tag", "struct-tag-after-call-local-functions", "struct-tag-field-70", string(carrier.StructWrappers),
-						string(carrier.StructFirstLocalFn), string(carrier.StructFirstOverride), string(carrier.StructFirstOtherTag), string(carrier.StructFirstNested))
+						string(carrier.StructFirstLocalFn), string(carrier.StructFirstOverride), string(carrier.StructFirstOtherTag), string(carrier.StructFirstNested), string(carrier.StructAfterAbandoned))
 				}
 				if tv.varOK {
-					cars = append(cars, "var", string(carrier.VarWrappers))
+					cars = append(cars, "var", string(carrier.VarWrappers), string(carrier.VarLocalFn))
 				}
 				if tv.v.Kind() == reflect.String && tv.v.Type() == reflect.TypeOf("") {
-					cars = append(cars, "url-parameter-151-of-200", string(carrier.UrlWrappers), string(carrier.UrlRMEdited))
+					cars = append(cars, "url-parameter-151-of-200", string(carrier.UrlWrappers), string(carrier.UrlRMEdited), string(carrier.UrlLocalFn))
 				}
 				for _, car := range cars {
 					if strings.Contains(rf.rules, "exist") && !strings.HasPrefix(car, "struct-") {
